@@ -42,7 +42,7 @@ TRUSTED_BASE = [
 ASSUMPTIONS = ["species labels and ids are printable ASCII strings", "molecule labels are strings",
                "RXNSide input given as iterable of (label, int) pairs"]
 TESTED_NOT_PROVED = ["paths: completeness and the order of the answers, max_paths truncation (oracle: brute-force enumeration of simple paths)",
-                     "__repr__ (oracle: reference rendering of the stored state)",
+                     "__repr__ (oracle: mentions every stored id and species; equal for an equal network)",
                      "insertion order inside a side (RXNSide.to_dict / expand order); sides are unordered maps in the model",
                      "numpy array construction of the dense matrix (the model has lists of rows)",
                      "set_mol_map with non-string keys (outside the model's domain; oracle only)"]
